@@ -8,7 +8,7 @@
   Strings are compared as UTF-8 byte strings (`Rs.Str`), exactly as Rust's `&str` comparison does.
   `ofInt` is Rust's `i64 as f64` / `i32 as f64` (round to nearest) — a parameter; the theorems need it monotone only.
 
-  Deviation switches (with both off this is the intended algorithm):
+  Deviation switches (with both off this is the intended algorithm, which is what the tree does since fix e356a0a):
   * `definiteViaF64` (A.4, finding C05-F1): `definite_comparison` converts integer min / max AND an integer literal to f64 and
     compares there; beyond 2^53 rounding makes `max <= val` true for max = val + 1.  Off: integers are compared as integers.
   * `i32Narrowing` (finding C05-F2): `check_i32_stats` on Int64 statistics narrows min / max with `as i32` (wrap-around).
@@ -25,7 +25,10 @@ structure Dev where
   i32Narrowing : Bool := false
 deriving DecidableEq, Repr, Inhabited
 def Dev.none : Dev := {}
-def Dev.current : Dev := { definiteViaF64 := true, i32Narrowing := true }
+/-- the tree before fix e356a0a (both deviations): kept for the negation witnesses -/
+def Dev.old : Dev := { definiteViaF64 := true, i32Narrowing := true }
+/-- the current tree: since fix e356a0a integers are compared in the integer domain -/
+def Dev.current : Dev := {}
 
 /-- `ScalarValue` as `check_comparison` / `definite_comparison` distinguish it -/
 inductive Lit
